@@ -466,7 +466,7 @@ func CheckDomain(p *Prog, r *Report, spec DomainSpec) DomainResult {
 	type evalOut struct {
 		tuple    []Val
 		survives bool
-		sinks    map[ssa.Instruction]bool
+		sinks    map[string]bool // sink calls reached, each in the activation (call string) it was reached in
 		opaque   []string
 		stuck    []string
 	}
@@ -524,7 +524,7 @@ func CheckDomain(p *Prog, r *Report, spec DomainSpec) DomainResult {
 				}
 				return
 			}
-			eo := evalOut{tuple: append([]Val{}, tuple...), sinks: map[ssa.Instruction]bool{}}
+			eo := evalOut{tuple: append([]Val{}, tuple...), sinks: map[string]bool{}}
 			mk := func() (*Interp, []Val) {
 				in := NewInterp(p)
 				in.CutSink = func(c *big.Int) {
@@ -576,18 +576,29 @@ func CheckDomain(p *Prog, r *Report, spec DomainSpec) DomainResult {
 				if spec.PreBind != nil {
 					spec.PreBind(in, tuple)
 				}
+				if spec.Sink != nil {
+					// a diagnostic call is identified together with the activation
+					// it sits in: the same errorf inside a shared helper is a
+					// different diagnostic for each call of the helper
+					in.Marks = map[string]bool{}
+					prev := in.OnCall
+					in.OnCall = func(call *ssa.Call, callee *ssa.Function, a []Val, fr *frame) {
+						if spec.Sink(callee) {
+							in.Marks[fmt.Sprintf("%s@%s:%d", fr.ctx, FnName(fr.fn), call.Pos())] = true
+						}
+						if prev != nil {
+							prev(call, callee, a, fr)
+						}
+					}
+				}
 				return in, args
 			}
 			collectSinks := func(in *Interp) {
 				if spec.Sink == nil {
 					return
 				}
-				for instr := range in.ReachedAny {
-					if c, ok := instr.(*ssa.Call); ok {
-						if sc := c.Common().StaticCallee(); sc != nil && spec.Sink(sc) {
-							eo.sinks[instr] = true
-						}
-					}
+				for k := range in.Marks {
+					eo.sinks[k] = true
 				}
 			}
 			if regionSubj < 0 {
@@ -651,7 +662,7 @@ func CheckDomain(p *Prog, r *Report, spec DomainSpec) DomainResult {
 	}
 	// sink mode: a tuple is refused when it reaches a diagnostic not common to all tuples
 	if spec.Sink != nil {
-		common := map[ssa.Instruction]int{}
+		common := map[string]int{}
 		for _, eo := range outs {
 			for s := range eo.sinks {
 				common[s]++
